@@ -130,7 +130,34 @@ func apply(buf []byte, w write, n int) []byte {
 
 // Materialize writes the image for crash point p (events[0:p] happened) into dst.
 func Materialize(t *Trace, p int, m Model, r *rand.Rand, dst string) (Info, error) {
+	return MaterializeOn("", t, p, m, r, dst)
+}
+
+// MaterializeOn is Materialize for a journal recorded on top of an existing directory
+// (base): every file of base is durable content (it is what the previous crash left on
+// disk). Used for crashes during recovery.
+func MaterializeOn(base string, t *Trace, p int, m Model, r *rand.Rand, dst string) (Info, error) {
 	files := map[string]*file{}
+	if base != "" {
+		err := filepath.Walk(base, func(path string, fi os.FileInfo, err error) error {
+			if err != nil || fi.IsDir() {
+				return err
+			}
+			rel, err := filepath.Rel(base, path)
+			if err != nil {
+				return err
+			}
+			data, err := os.ReadFile(path)
+			if err != nil {
+				return err
+			}
+			files[rel] = &file{data: data, durable: append([]byte(nil), data...), exists: true, durEntry: true}
+			return nil
+		})
+		if err != nil {
+			return Info{}, err
+		}
+	}
 	info := Info{}
 	if p < len(t.Events) {
 		info.KindAtP = t.Events[p].Op.String()
